@@ -57,7 +57,7 @@ def ensure_driver(bd, config="pinned"):
     if os.path.exists(exe):
         return exe, ""
     srcs = [os.path.join(vlib.VERIF, "harness", "driver.cpp")] + vlib.lib_sources()
-    cmd = [vlib.CXX, "-std=c++" + std, "-fno-access-control", "-I" + os.path.join(vlib.REPO, "include")] + flags + srcs + \
+    cmd = [vlib.CXX, "-std=c++" + std, "-fno-access-control", "-pthread", "-I" + os.path.join(vlib.REPO, "include")] + flags + srcs + \
           ["-licui18n", "-licuuc", "-ldl", "-o", exe + ".tmp"]
     rc, out, _ = vlib.run(cmd, timeout=900)
     if rc != 0:
